@@ -266,7 +266,7 @@ func TestPropCookieLifecycle(t *testing.T) {
 			pattern = append(pattern, p)
 			relay.set([]string{p})
 			conns0 := ke.Conns()
-			timeout := 400 * time.Millisecond
+			timeout := 3 * time.Second // generous: only a failing loss-free exchange ever waits this long
 			if p != "ok" {
 				timeout = 60 * time.Millisecond
 			}
